@@ -183,7 +183,8 @@ class Tree:
                 same_leaf = f.node.name.lstrip("_") == leaf
                 parts_old = k.split(":", 1)[1].split(".")
                 parts_new = nk.split(":", 1)[1].split(".")
-                same_cls = len(parts_old) > 1 and len(parts_new) > 1 and parts_old[-2].lstrip("_") == parts_new[-2].lstrip("_")
+                co_, cn_ = (parts_old[-2].lstrip("_"), parts_new[-2].lstrip("_")) if len(parts_old) > 1 and len(parts_new) > 1 else ("", "")
+                same_cls = bool(co_) and bool(cn_) and (co_ == cn_ or (min(len(co_), len(cn_)) >= 6 and (co_.startswith(cn_) or cn_.startswith(co_))))
                 if len(pinned[k]) < 4 and not (same_leaf and same_cls):
                     continue  # too small to be recognised by its body alone
                 sc = skeleton_similarity(pinned[k], skeleton_tokens(f.node))
@@ -283,6 +284,19 @@ class Tree:
                     x.arg = mapping[x.arg]
             self._rename(f.node, mapping, top=True)
             self.renamed.append(f"{key}: {mapping}")
+            # keyword arguments of the calls that resolve to this function by name (same module: plain name, or self./cls./Class. attribute)
+            scope = f.parent.node if f.parent is not None else f.module.tree
+            for c in ast.walk(scope):
+                if not isinstance(c, ast.Call) or not c.keywords:
+                    continue
+                fn_ = c.func
+                hit = (isinstance(fn_, ast.Name) and fn_.id == f.node.name and f.cls is None) or (
+                    isinstance(fn_, ast.Attribute) and fn_.attr == f.node.name and f.cls is not None and isinstance(fn_.value, ast.Name)
+                    and fn_.value.id in ("self", "cls", f.cls.qual.split(".")[-1]))
+                if hit:
+                    for k in c.keywords:
+                        if k.arg in mapping:
+                            k.arg = mapping[k.arg]
         self._canonical_locals()
 
     def _canonical_locals(self, table="local_names.json"):
